@@ -25,10 +25,17 @@ F = ["logix_driver.LogixDriver.get_tag_list", "logix_driver._get_tag_list", "log
      "logix_driver._parse_template_data_member_info", "logix_driver._get_data_type", "logix_driver.tags_json", "custom_types.StructTag", "custom_types.FixedSizeString"]
 
 
-def project(meta=None, rev=32, **kw):
-    """std project + system / module / alias symbols.  meta: symbolic overrides"""
+KEEP = {"D1", "I1", "R1", "S3", "BA", "U1", "UA", "O1", "ST", "S5", "Program:Main", "PD", "PU", "Routine:R1"}
+
+
+def project(meta=None, rev=32, small=False, **kw):
+    """std project + system / module / alias symbols.  meta: symbolic overrides.  small: the reduced symbol table used by the symbolic obligations"""
     meta = meta or {}
     t = scen.std_project(revision_major=rev, **kw)
+    if small == "tiny":
+        t.symbols = [s for s in t.symbols if s.name in ("D1", "I1", "R1", "S3", "U1", "O1", "Program:Main", "PD")]
+    elif small:
+        t.symbols = [s for s in t.symbols if s.name in KEEP]
     t1 = [x for x in t.templates.values() if x.name == "UDT1"][0]
     io = Template(0x130, "AB:1756_DI:I:0", 8, [Member("Fault", 0xC4, 0), Member("Data", 0xC4, 4)])
     t.templates[io.instance_id] = io
@@ -39,6 +46,10 @@ def project(meta=None, rev=32, **kw):
         Symbol("Routine:Main", 61, 0x6D, program="Second"), Symbol("__hidden_in_prog", 62, 0xC4, program="Main"),
         Symbol("A", 63, 0xC2), Symbol("Odd", 64, 0xC6, (2, 2)),
     ]
+    if small == "tiny":
+        extra = [e for e in extra if e.name in ("ALIAS1", "__DEFVAL_0001")]
+    elif small:
+        extra = [e for e in extra if e.name in ("Task:MainTask", "Map:Local", "__DEFVAL_0001", "Local:1:I", "ALIAS1", "SysHidden", "A")]
     t.symbols += extra
     if "iid" in meta:
         t.find_symbol("D1").instance_id = meta["iid"]
@@ -103,7 +114,27 @@ def expect_type(typ, got, where):
     return None
 
 
-def compare(d, target, rev, program_tags=True):
+def _not_json(o, where="tags"):
+    if o is None or isinstance(o, (bool, int, float, str)):
+        return None
+    if isinstance(o, (list, tuple)):
+        for i, x in enumerate(o):
+            r = _not_json(x, f"{where}[{i}]")
+            if r:
+                return r
+        return None
+    if isinstance(o, dict):
+        for k, v in o.items():
+            if not isinstance(k, (str, int)):
+                return where + ": key " + repr(type(k))
+            r = _not_json(v, f"{where}.{k}")
+            if r:
+                return r
+        return None
+    return where + ": " + type(o).__name__
+
+
+def compare(d, target, rev, program_tags=True, symbolic_meta=False):
     exp = {}
     for s in target.symbols:
         if s.system or not visible(s.name):
@@ -142,10 +173,16 @@ def compare(d, target, rev, program_tags=True):
             return "routines"
     if sorted(d.info.get("tasks", {})) != sorted(s.name[5:] for s in target.symbols if s.name.startswith("Task:")):
         return "tasks"
-    try:
-        json.dumps(d.tags_json)
-    except Exception as e:
-        return "tags_json: " + type(e).__name__
+    if symbolic_meta:
+        # json.dumps would pin every symbolic number to one value (endless enumeration): check serialisability structurally instead
+        bad = _not_json(d.tags_json)
+        if bad:
+            return "tags_json: " + bad
+    else:
+        try:
+            json.dumps(d.tags_json)
+        except Exception as e:
+            return "tags_json: " + type(e).__name__
     if target.violations:
         return "protocol:" + target.violations[0]
     if d._sock.frame_errors:
@@ -162,19 +199,23 @@ def upload(target, rev, program="*"):
 # ---------------------------------------------------------------- pagination of the symbol list
 def pagination(p1: int, p2: int, p3: int) -> str:
     try:
-        t = project(page_sizes=[p1, p2, p3])
+        t = project(page_sizes=[p1, p2, p3], small=True)
         return compare(upload(t, 32), t, 32)
     except Exception as e:
         return "exc:" + type(e).__name__ + ":" + str(e)[:80]
 
 
-REG.add("pagination/three-symbolic-page-sizes", pagination, pre=lambda p1, p2, p3: 1 <= p1 <= 30 and 1 <= p2 <= 30 and 1 <= p3 <= 30, timeout=1500, weight=4, funcs=F,
-        desc="the controller returns p1, p2, p3 symbols in its first three replies (each symbolic 1..30), per scope; the uploaded database must not depend on them")
+for lo, hi in ((1, 5), (5, 9), (9, 13), (13, 18)):
+    REG.add(f"pagination/first-page-{lo}-{hi - 1}", pagination, pre=lambda p1, p2, p3, lo=lo, hi=hi: lo <= p1 < hi and 1 <= p2 <= 4 and p3 == 3, timeout=1500, weight=4, funcs=F,
+            desc=f"the controller returns p1 symbols in its first reply (symbolic {lo}..{hi - 1}), p2 in the second (symbolic 1..4), 3 in the third, then the rest, per scope "
+                 "(reduced project: 16 controller-scope symbols); the uploaded database must not depend on them")
+REG.add("pagination/three-symbolic-page-sizes", pagination, pre=lambda p1, p2, p3: 1 <= p1 <= 16 and 1 <= p2 <= 16 and 1 <= p3 <= 16, timeout=6000, weight=4, funcs=F, tier="thorough",
+        desc="first three page sizes each symbolic 1..16")
 
 
 def template_fragments(frag: int) -> str:
     try:
-        t = project(template_frag=frag)
+        t = project(template_frag=frag, small=True)
         return compare(upload(t, 32), t, 32)
     except Exception as e:
         return "exc:" + type(e).__name__ + ":" + str(e)[:80]
@@ -188,29 +229,66 @@ for lo, hi in ((8, 18), (18, 30), (30, 48)):
 # ---------------------------------------------------------------- symbolic symbol metadata
 def metadata(iid: int, d1: int, d2: int, d3: int, access: int, base: bool) -> str:
     try:
-        t = project(meta={"iid": iid, "dims": [d1, d2, d3], "access": access, "base": base})
-        return compare(upload(t, 32), t, 32)
+        t = project(meta={"iid": iid, "dims": [d1, d2, d3], "access": access, "base": base}, small="tiny")
+        return compare(upload(t, 32), t, 32, symbolic_meta=True)
     except Exception as e:
         return "exc:" + type(e).__name__ + ":" + str(e)[:80]
 
 
-REG.add("metadata/symbol-attributes", metadata,
-        pre=lambda iid, d1, d2, d3, access, base: 100 <= iid < 2**32 and all(1 <= x < 2**31 for x in (d1, d2, d3)) and 0 <= access < 256, timeout=900, weight=3, funcs=F,
-        desc="instance id (32 bit), three dimensions, external access byte and base-tag bit of four different tags symbolic")
+# one symbolic field per obligation (each path is a whole upload under the tracer: ~5 s)
+_fixed = dict(iid=1, d1=2, d2=2, d3=2, access=0, base=True)
+
+
+def _only(**sym):
+    def pre(iid, d1, d2, d3, access, base):
+        vals = dict(iid=iid, d1=d1, d2=d2, d3=d3, access=access, base=base)
+        ok = True
+        for k, v in vals.items():
+            if k in sym:
+                lo, hi = sym[k]
+                ok = ok and lo <= v < hi
+            else:
+                ok = ok and v == _fixed[k]
+        return ok
+    return pre
+
+
+REG.add("metadata/instance-id", metadata, pre=_only(iid=(100, 2**32)), timeout=900, weight=3, funcs=F, desc="instance id of a tag symbolic over 100..2^32-1 (tiny project)")
+REG.add("metadata/external-access", metadata, pre=_only(access=(0, 256)), timeout=900, weight=3, funcs=F, desc="external access byte symbolic 0..255 (known texts and 'Unknown')")
+REG.add("metadata/base-tag-bit", metadata, pre=lambda iid, d1, d2, d3, access, base: (iid, d1, d2, d3, access) == (1, 2, 2, 2, 0), timeout=900, weight=2, funcs=F, desc="base-tag bit symbolic: alias flag")
+for _k in ("d1", "d2", "d3"):
+    REG.add(f"metadata/dimension-{_k}", metadata, pre=_only(**{_k: (1, 2**16)}), timeout=900, weight=3, funcs=F, desc=f"dimension {_k} of a 3-dimensional array symbolic 1..65535")
 
 
 def template_layout(a_off: int, host_off: int, bit0: int, bit1: int, arr_len: int, arr_off: int, size: int) -> str:
     try:
-        t = project(meta={"t1": (a_off, host_off, bit0, bit1, arr_len, arr_off, size)})
-        return compare(upload(t, 32), t, 32)
+        t = project(meta={"t1": (a_off, host_off, bit0, bit1, arr_len, arr_off, size)}, small="tiny")
+        return compare(upload(t, 32), t, 32, symbolic_meta=True)
     except Exception as e:
         return "exc:" + type(e).__name__ + ":" + str(e)[:80]
 
 
-REG.add("metadata/template-layout", template_layout,
-        pre=lambda a_off, host_off, bit0, bit1, arr_len, arr_off, size: 0 <= a_off < 2**16 and 0 <= host_off < 2**16 and 0 <= bit0 < 8 and 0 <= bit1 < 8 and bit0 != bit1
-        and 1 <= arr_len < 2**16 and 0 <= arr_off < 2**16 and 16 <= size < 2**20,
-        timeout=900, weight=3, funcs=F, desc="member offsets, BOOL bit numbers, array length and structure size of UDT1 (used by 5 tags and nested in OUTER) symbolic")
+_tfix = dict(a_off=0, host_off=4, bit0=0, bit1=1, arr_len=2, arr_off=6, size=16)
+
+
+def _tonly(**sym):
+    def pre(a_off, host_off, bit0, bit1, arr_len, arr_off, size):
+        vals = dict(a_off=a_off, host_off=host_off, bit0=bit0, bit1=bit1, arr_len=arr_len, arr_off=arr_off, size=size)
+        ok = bit0 != bit1
+        for k, v in vals.items():
+            if k in sym:
+                lo, hi = sym[k]
+                ok = ok and lo <= v < hi
+            else:
+                ok = ok and v == _tfix[k]
+        return ok
+    return pre
+
+
+for _name, _sym in (("member-offsets", dict(a_off=(0, 2**16), arr_off=(0, 2**16))), ("host-offset+bits", dict(host_off=(0, 2**16), bit0=(0, 8), bit1=(0, 8))),
+                    ("array-length", dict(arr_len=(1, 2**16))), ("structure-size", dict(size=(16, 2**20)))):
+    REG.add(f"metadata/template/{_name}", template_layout, pre=_tonly(**_sym), timeout=900, weight=3, funcs=F,
+            desc=f"UDT1 (used by U1 and nested in OUTER): {', '.join(_sym)} symbolic")
 
 
 # ---------------------------------------------------------------- firmware generations / scopes (concrete shapes, every frame checked)
